@@ -11,3 +11,71 @@ INERT_WRAPPER_PARAMS = {
 # A wrapper parameter is also inert when the replaced library callable documents it as ignored:
 # its docstring contains "`<name>`: Ignored" (Equinox does this for `key` / `state` on deterministic layers).
 DOC_IGNORED_PATTERN = r"`{name}`:\s*Ignored"
+
+# (jax primitive variable or "*", parameter) -> reason why a lowering need not read it
+INERT_PRIM_PARAMS = {
+    ("*", "sharding"): "sharding annotation; no meaning in a single-device ONNX model",
+    ("*", "out_sharding"): "sharding annotation (AGENTS.md documents that it is ignored)",
+    ("*", "precision"): "XLA matmul precision hint; ONNX has no counterpart, results stay within float tolerance",
+    ("*", "accuracy"): "XLA transcendental accuracy hint",
+    ("*", "unroll"): "loop unrolling hint for XLA; does not change results",
+    ("*", "_split_transpose"): "scan AD implementation hint",
+    ("*", "linear"): "linearity flags used by AD only",
+    ("*", "indices_are_sorted"): "optimisation hint: a promise about the indices, not a semantic switch",
+    ("*", "unique_indices"): "optimisation hint: a promise about the indices",
+    ("*", "weak_type"): "weak-type flag of the result aval; the ONNX dtype comes from the output aval",
+    ("*", "new_dtype"): "derivable: equals the output aval's dtype, which the lowering reads",
+    ("*", "dtype"): "derivable from the output aval",
+    ("*", "shape"): "derivable from the output aval",
+    ("*", "new_sizes"): "derivable from the output aval's shape",
+    ("*", "index_dtype"): "derivable from the output aval",
+    ("*", "preferred_element_type"): "derivable from the output aval's dtype",
+    ("*", "jaxpr"): "sub-jaxpr parameter handled by the control-flow plugins through dedicated accessors",
+    ("*", "input_dtype"): "derivable from the operand aval",
+    ("*", "out_dtype"): "derivable from the output aval",
+    # --- per primitive (confirmed by reading the jax sources and the plugin) ---
+    ("eig_p", "enable_eigvec_derivs"): "only switches the JVP rule; the primal results are identical",
+    ("eig_p", "implementation"): "backend implementation choice (LAPACK / cuSOLVER); same mathematical result",
+    ("eigh_p", "algorithm"): "backend algorithm choice (QR / Jacobi); same mathematical result",
+    ("svd_p", "algorithm"): "backend algorithm choice; same mathematical result",
+    ("svd_p", "full_matrices"): "the lowering only accepts 1x1 inputs or compute_uv=False and raises NotImplementedError otherwise; there full and reduced SVD coincide",
+    ("qr_p", "use_magma"): "GPU backend selection",
+    ("schur_p", "sort_eig_vals"): "documented as unused by jax.lax.linalg.schur; jax's own CPU lowering rejects True",
+    ("tridiagonal_solve_p", "perturb_singular"): "selects a GPU kernel variant for singular systems; the default (False) is the only path on CPU",
+    ("remat_p", "differentiated"): "rematerialisation bookkeeping for AD; forward values are unchanged",
+    ("remat_p", "policy"): "which residuals to save under AD; forward values are unchanged",
+    ("remat_p", "prevent_cse"): "XLA scheduling hint",
+    ("shard_map_p", "check_vma"): "static checking flag", ("shard_map_p", "debug_info"): "debug info",
+    ("shard_map_p", "in_specs"): "partitioning specs; a single-device export evaluates the body on the whole array",
+    ("shard_map_p", "out_specs"): "partitioning specs", ("shard_map_p", "mesh"): "device mesh; single-device export",
+    ("shard_map_p", "newly_manual_axes"): "partitioning bookkeeping", ("shard_map_p", "subfuns"): "internal wrapped functions of the same body jaxpr",
+    ("random_seed_p", "impl"): "PRNG implementation: the exported random ops do not reproduce JAX's bit stream for any impl",
+    ("random_wrap_p", "impl"): "PRNG implementation tag of the key array",
+    ("approx_top_k_p", "recall_target"): "approximation budget: the exact top-k that is exported satisfies every recall target",
+    ("approx_top_k_p", "aggregate_to_topk"): "approximation tuning of the TPU kernel", ("approx_top_k_p", "reduction_input_size_override"): "approximation tuning of the TPU kernel",
+    ("device_put_p", "devices"): "placement; single-device export", ("device_put_p", "srcs"): "placement", ("device_put_p", "copy_semantics"): "buffer aliasing / donation semantics, not values",
+    ("name_p", "name"): "debug name of the value",
+    ("scan_p", "ft_out"): "output partition (carry | stacked ys): determined by the carry count decoded from ft_in and the number of outputs",
+    ("sharding_constraint_p", "context_mesh"): "partitioning; single-device export", ("sharding_constraint_p", "layout"): "device memory layout hint",
+    ("sharding_constraint_p", "unconstrained_dims"): "partitioning",
+    ("sort_p", "is_stable"): "ONNX TopK breaks ties by the lower index, i.e. it is always stable; a stable order is admissible when is_stable=False",
+    ("top_k_p", "is_stable"): "ONNX TopK is always index-stable",
+    ("scatter_p", "update_jaxpr"): "the combiner is fixed by the primitive identity (scatter = overwrite)", ("scatter_p", "update_consts"): "constants of that combiner",
+    ("scatter_add_p", "update_jaxpr"): "combiner fixed by the primitive identity (add)", ("scatter_add_p", "update_consts"): "constants of that combiner",
+    ("scatter_mul_p", "update_jaxpr"): "combiner fixed by the primitive identity (mul)", ("scatter_mul_p", "update_consts"): "constants of that combiner",
+    ("scatter_min_p", "update_jaxpr"): "combiner fixed by the primitive identity (min)", ("scatter_min_p", "update_consts"): "constants of that combiner",
+    ("scatter_max_p", "update_jaxpr"): "combiner fixed by the primitive identity (max)", ("scatter_max_p", "update_consts"): "constants of that combiner",
+    ("scatter_sub_p", "update_jaxpr"): "combiner fixed by the primitive identity (sub)", ("scatter_sub_p", "update_consts"): "constants of that combiner",
+}
+
+# keys of plugin-owned primitives that only shape / type the result (read by abstract_eval, derivable in lower)
+SHAPE_ONLY_BIND_KEYS = {
+    "dtype": "result dtype: lower() reads it from the output aval",
+    "shape": "result shape: lower() reads it from the output aval",
+    "out_sharding": "sharding annotation",
+    "precision": "XLA precision hint",
+    "axes_is_tuple": "bookkeeping flag telling abstract_eval how to call the original reduction; the reduced axes themselves are bound as `axes`",
+    "method": "algorithm choice of jnp.searchsorted / jnp.digitize ('scan', 'sort', 'compare_all'): all methods return the same indices",
+    "param_dtype": "dtype used to initialise parameters at module construction; the bound kernel/bias already carry it",
+    "mode": "sampling-precision mode of jax.random.categorical; the exported sampler does not reproduce JAX's bit stream in either mode",
+}
